@@ -26,8 +26,10 @@ Schemas == <<
   [i \in 1..160 |-> Col(<<99, 48 + (i \div 100), 48 + ((i \div 10) % 10), 48 + (i % 10)>>, IF i % 2 = 0 THEN 1 ELSE 2, i % 2, 0)] >>
 
 \* kind "write": the window covers create .. close; the file is read back afterwards
+\* win = "all": the window covers create .. close; "close": only the final close call is inside
 W(sid, groups, codec, page, wmode, policy) ==
-    [kind |-> "write", sid |-> sid, groups |-> groups, codec |-> codec, page |-> page, wmode |-> wmode, policy |-> policy]
+    [kind |-> "write", sid |-> sid, groups |-> groups, codec |-> codec, page |-> page, wmode |-> wmode, policy |-> policy, win |-> "all"]
+WC(sid, groups, codec, page, wmode, policy) == [W(sid, groups, codec, page, wmode, policy) EXCEPT !.win = "close"]
 \* kind "read": fixture written without faults; window = open + column reads
 R(sid, groups, codec, page, rmode, verify, policy) ==
     [kind |-> "read", sid |-> sid, groups |-> groups, codec |-> codec, page |-> page, wmode |-> "p", policy |-> policy,
@@ -75,7 +77,7 @@ Catalogue == [
   b_buffer |-> B(1, <<5, 3>>, 6, 64, "b", 100, 1, <<5, 0, 7>>, "a"),
   b_cont   |-> B(2, <<4, 2>>, 1, 64, "f", 3, 1, <<>>, "n"),
   b_par    |-> B(1, <<5, 3>>, 1, 64, "f", 3, 4, <<>>, "a"),
-  w_wide160 |-> W(5, <<2, 1>>, 0, 1048576, "p", "a"),
+  w_wide160 |-> WC(5, <<2, 1>>, 0, 1048576, "p", "a"),
   r_wide160 |-> RN(5, <<2, 1>>, 0, 1048576, "f", 1, "a", 2),
   b_wide160 |-> B(5, <<2, 1>>, 1, 1048576, "m", 100, 1, <<0, 159>>, "a"),
   w_snappy_c |-> W(1, <<5, 3>>, 1, 64, "p", "c"),
